@@ -52,7 +52,8 @@ ASSUMPTIONS = ['sampling regimes: the wavefronts of one history share a pixel sc
 RULE = ('corpus first; every single step exhaustively (9 states = 3 types x {fields, tilted fields, no fields} x '
         '(5 plane types + every public class, each with an overlapping and a disjoint aperture, + 2 routines)); every '
         'plane kind re-used (the same object, and a copy() of it) on wavefronts of two different types in both orders; '
-        'random programs of length <= 12 (quick) / <= 40 (thorough) over all plane types, all public plane classes and '
+        'every object (planes, wavefronts, products) also through copy(), copy.copy, deepcopy and a pickle round trip, '
+        'planes also built with the amp= keyword alias; random programs of length <= 12 (quick) / <= 40 (thorough) over all plane types, all public plane classes and '
         'both routines, with planes drawn from a pool of long-lived objects re-used across steps, across wavefront '
         'types and across fresh wavefronts, random constructions of every object (scalar/array/segmented planes, '
         'several shapes, tilts, disjoint apertures, propagation shapes and oversampling); thorough: also every 2-step '
@@ -102,6 +103,8 @@ def _doc():
 #   scale, wl, loose       sampling regime of all wavefronts of the history (gen_ptype.py): pixel scale 1 | 2 |
 #                          [1, 2] (| null when loose), wavelength, loose = default focal length / optical
 #                          wavelength / 6x5 data (multiplications only)
+#   proutes, wroutes       {"<step index>": route}: the plane used at that step / the wavefront entering that step
+#                          first goes through copy() | copy.copy | deepcopy | pickle (round trip)
 #   a plane spec may carry a 6th element mism = true: the plane is given a pixel scale different from the
 #   wavefronts' (documented: a forbidden cell is TypeError all the same; a permitted one is not a plane-type
 #   matter - lentil refuses it with ValueError, the oracle accepts that refusal or the documented type)
@@ -183,6 +186,28 @@ def generate(rng, tier):
     regimes = [{'scale': list(sc) if isinstance(sc, tuple) else sc, 'wl': wl} for sc, wl, _ in gen_ptype.STRICT]
     loose = [{'scale': list(sc) if isinstance(sc, tuple) else sc, 'wl': wl, 'loose': True} for sc, wl, _ in gen_ptype.LOOSE]
 
+    def routes(case, i=None):
+        """object routes: deterministic rotation (i given) or random for some steps"""
+        ops = case['ops']
+        pr, wr = {}, {}
+        for k, o in enumerate(ops):
+            if o[0] in ('fresh', 'back'):
+                continue
+            if i is not None:
+                a, b = gen_ptype.ROUTES_P[(i + k) % 5], gen_ptype.ROUTES_W[(i // 5 + k) % 4]
+            else:
+                a = rng.choice(gen_ptype.ROUTES_P) if rng.random() < 0.2 else 'fresh'
+                b = rng.choice(gen_ptype.ROUTES_W) if rng.random() < 0.15 else 'fresh'
+            if a != 'fresh' and o[0] != 'prop':
+                pr[str(k)] = a
+            if b != 'fresh':
+                wr[str(k)] = b
+        if pr:
+            case['proutes'] = pr
+        if wr:
+            case['wroutes'] = wr
+        return case
+
     def regime(i, mul_only=False, mism=False):
         if mul_only and i % 3 == 2:
             lo = [r for r in loose if not (mism and r['scale'] is None)]
@@ -195,8 +220,8 @@ def generate(rng, tier):
         for kind, name, clip, po in all_ops:
             for mism in ((False, True) if kind != 'prop' else (False,)):
                 n += 1
-                yield dict(regime(n, kind != 'prop' or w == 'none', mism), op='program', start=w, body=b, sv=n % 2, pool=[],
-                           ops=[mk(kind, name, clip, po, mism)])
+                yield routes(dict(regime(n, kind != 'prop' or w == 'none', mism), op='program', start=w, body=b,
+                                  sv=n % 2, pool=[], ops=[mk(kind, name, clip, po, mism)]), n)
     # 2. every plane kind as ONE long-lived object used on wavefronts of two different types (both orders),
     #    directly, through copy(), and once more on the first type
     for kind, name, clip, po in planes:
@@ -208,17 +233,18 @@ def generate(rng, tier):
                     continue
                 for cp in (False, True):
                     n += 1
-                    yield dict(regime(n, True), op='program', start=w1, body='plain', pool=[mk(kind, name, clip, po)],
-                               ops=[['pool', 0, False], ['fresh', w2, rng.choice(BODIES), rng.randrange(2)],
-                                    ['pool', 0, cp], ['fresh', w1, 'plain', 0], ['pool', 0, cp]])
+                    yield routes(dict(regime(n, True), op='program', start=w1, body='plain', pool=[mk(kind, name, clip, po)],
+                                      ops=[['pool', 0, False], ['fresh', w2, rng.choice(BODIES), rng.randrange(2)],
+                                           ['pool', 0, cp], ['fresh', w1, 'plain', 0], ['pool', 0, cp]]), n)
     # 3. every two-step program over the claimed operations (thorough), a sample of them (quick)
     claimed = [o for o in all_ops if o[1] not in BROKEN]
     pairs = [(s, a, b) for s in states for a in claimed for b in claimed]
     pairs = rng.sample(pairs, 300 if tier != 'thorough' else 6000)
     for (w, bd), a, b in pairs:
         n += 1
-        yield dict(regime(n), op='program', start=w, body=bd, pool=[],
-                   ops=[mk(*a, mism=a[0] != 'prop' and rng.random() < 0.15), mk(*b, mism=b[0] != 'prop' and rng.random() < 0.15)])
+        yield routes(dict(regime(n), op='program', start=w, body=bd, pool=[],
+                          ops=[mk(*a, mism=a[0] != 'prop' and rng.random() < 0.15),
+                               mk(*b, mism=b[0] != 'prop' and rng.random() < 0.15)]), n if n % 2 else None)
     # 3b. one wavefront object fanned out to two steps: [a, back to the operand, b]
     fan = [(w, a, b) for w in WTYPES for a in claimed for b in claimed]
     fan = rng.sample(fan, 200 if tier != 'thorough' else 2000)
@@ -238,8 +264,9 @@ def generate(rng, tier):
             for _ in range(rng.randint(1, 3)):
                 ops.insert(rng.randrange(1, len(ops) + 1), ['back', rng.randint(1, 3)])
         t = rng.random()
-        yield dict(regime(rng.randrange(6)), op='program', start=rng.choice(WTYPES),
-                   body='tilted' if t < 0.2 else 'empty' if t < 0.3 else 'plain', sv=rng.randrange(2), pool=pool, ops=ops)
+        yield routes(dict(regime(rng.randrange(6)), op='program', start=rng.choice(WTYPES),
+                          body='tilted' if t < 0.2 else 'empty' if t < 0.3 else 'plain', sv=rng.randrange(2),
+                          pool=pool, ops=ops))
 
 
 def classify(c):
@@ -344,6 +371,10 @@ def run_impl(c):
         warnings.simplefilter('ignore')
         for o in c['ops']:
             kind, name, v, clip, pi, cp, po, mism = _norm(c, o)
+            wr = (c.get('wroutes') or {}).get(str(len(trace)))
+            pr = (c.get('proutes') or {}).get(str(len(trace)))
+            if wr:
+                w = gen_ptype.route(w, wr)
             entry = {'before': _state(w)}
             hist.append(w)
             if kind == 'back':
@@ -364,6 +395,8 @@ def run_impl(c):
                     pl = gen_ptype.build_plane(lentil, kind, name, v, clip, po, reg, mism)
                 else:
                     pl = pool[pi].copy() if cp else pool[pi]
+                if pr:
+                    pl = gen_ptype.route(pl, pr)
                 entry['plane_ptype'] = str(pl.ptype)
                 entry['plane_class'] = type(pl).__name__
                 fn = (lambda ww, pl=pl: ww * pl)
@@ -460,7 +493,9 @@ def _failures(c, impl):
             d = doc['prop'][(name, wt)]
         how = '' if pi is None else f' [pool object {pi}{", copy()" if cp else ""}, used before in this history]' \
             if any(_norm(c, o)[4] == pi for o in c['ops'][:i]) else f' [pool object {pi}{", copy()" if cp else ""}]'
-        what = f'step {i} {kind} {name}{"" if po is None else "(ptype=" + po + ")"}{how}' \
+        rts = ''.join(f' [{k} via {(c.get(key) or {}).get(str(i))}]' for k, key in (('plane', 'proutes'), ('wavefront', 'wroutes'))
+                      if (c.get(key) or {}).get(str(i)))
+        what = f'step {i} {kind} {name}{"" if po is None else "(ptype=" + po + ")"}{how}{rts}' \
                f'{" with a different pixel scale" if mism else ""} on a {wt} wavefront ({e["before"][1]})'
         if 'raises' in e:
             if e['kept'] != e['before']:
